@@ -29,6 +29,8 @@ TEMPLATES = [
     'ex{QZ1}>ey', 'ex>{QZ1}+{b}', 'ex#i.c>ey.d', 'ul>li.it*901>a', 'ex>br/+ey', 'html>body>ex', 'ex>ey[t=QZ1]/',
     'ex>img+em', '(ex>ey)+(ez>em)*901', 'ex>ey^ez>em', 'table>tr*901>td*2', 'ex>ey{QZ1}+em{b}', 'body>ex+ey',
     'ex>{[${1}${2:x}]}>ey*901', '{if ${1}${2:c} then}>ex+ey',
+    # deeper nesting: five and six open elements, climbing back, repeated groups at depth 3
+    'ex>ey>ez>ew>ev>eu', 'ex>ey>(ez>ew+ev)*901>eu', 'ex>ey>ez>ew^^ev>eu+em', 'ex>ey>ez*901>ew>ev{QZ1}',
 ]
 XSL_TEMPLATES = ['xsl:variable[name=a select=b]>ex', 'tm>ch>wh+ot', 'vare>ex{QZ1}', 'xsl:with-param[name=a select=b]{QZ1}',
                  'ex>wp*901']
